@@ -18,19 +18,26 @@ def run(ctx):
     ctx.rule = ("histories of add / refresh / stop / remove-all-for-address (reboot) / connection loss / re-add for several keys and addresses in BOTH "
                 "TimedStore instances (found services, server subscriptions), TTL {1,2,3,infinite}, refreshes anywhere before, exactly at and one tick "
                 "around the deadline (a touch exactly at a pending deadline is accepted either way), both tie orders, runs of 6-12 virtual seconds plus "
-                "infinite-TTL entries observed past 0xFFFFFF s in the thorough tier; judged by check_C09 (per-key expiry history versus the specification)")
+                "infinite-TTL entries observed past 0xFFFFFF s; judged by check_C09 (per-key expiry history versus the specification)")
     ctx.assumptions = ["the loop is never late (virtual time): real-time lateness is outside the model"]
     n = 200 if quick else 8000
     scs = stackprop.corpus_scenarios("C09")
     for k in range(n):
         scs.append(static_discovery(r) if k % 8 else renewal_discovery(r))
         scs.append(scen.server_scenario(r) if k % 8 else renewal_server(r))
-    if not quick:
-        # infinite TTL far beyond 0xFFFFFF seconds
-        for k in range(20):
+    # infinite TTL observed far beyond 0xFFFFFF seconds (both stores)
+    for k in range(12 if quick else 60):
+        if k % 3 == 0:
+            sc = renewal_discovery(r)
+        elif k % 3 == 1:
             sc = static_discovery(r)
-            sc["end"] = (0xFFFFFF + 10) * scen.T
-            scs.append(sc)
+        else:
+            sc = renewal_server(r)
+            cfg = list(sc["cfg"])
+            cfg[6] = 0          # no cyclic offers: the run up to the far end stays short
+            sc["cfg"] = tuple(cfg)
+        sc["end"] = (0xFFFFFF + 10) * scen.T
+        scs.append(sc)
     stackprop.run_scenarios(ctx, scs, 3009, CODES, what="TTL store")
 
 
